@@ -372,6 +372,10 @@ def verify_hyperparameters(num_input_dims=None,
           raise ValueError("Range dominance constraint's dimensions must "
                            "have `input_max` set. Dimension %d is not set." %
                            (dim))
+        if input_min[dim] == input_max[dim]:
+          raise ValueError("Range dominance constraint's dimensions must "
+                           "have `input_min` < `input_max`. Dimension %d has "
+                           "an empty input range." % (dim))
       if (weak_dim, dominant_dim) in dim_pairs:
         raise ValueError("Cannot have two range dominance constraints on the "
                          "same pair of features conflicting. Features: %d, %d" %
